@@ -305,8 +305,14 @@ async fn deliver(sim: &mut Sim, m: Msg, step: &mut Vec<Value>) {
 fn dump_node(sim: &mut Sim, i: usize) -> Value {
     let addrs = sim.nodes[i].driver.verif_record_addresses();
     let mut held = vec![];
+    let mut bulk = 0usize;
     for (a, t) in &addrs {
         let key: RecordKey = a.to_record_key();
+        if !sim.reg.keys.contains_key(key.as_ref()) {
+            // filler records of a `bulk_store` op: only their number is reported
+            bulk += 1;
+            continue;
+        }
         let content = match sim.nodes[i].driver.verif_get_local_record(&key) {
             Some(r) => build::describe(&sim.reg, &r.value),
             None => json!({"t": "unreadable"}),
@@ -344,7 +350,7 @@ fn dump_node(sim: &mut Sim, i: usize) -> Value {
     qd.sort_by_key(|v| v.to_string());
     // the routing table as kademlia's own iterator yields it (peer indices)
     let rt: Vec<i64> = nethooks::closest_local_peers(&mut sim.nodes[i].driver, &self_addr).iter().map(|p| peer_index(sim, p)).collect();
-    json!({"held": held, "closest_k": closest, "candidates": cands, "range": range, "inflight": infl, "queued": qd, "rt": rt})
+    json!({"held": held, "closest_k": closest, "candidates": cands, "range": range, "inflight": infl, "queued": qd, "rt": rt, "bulk": bulk})
 }
 
 /// final dump only: the distance from node `i` to EVERY key the case mentioned and to every peer of its
@@ -537,6 +543,35 @@ async fn run_case_async(case: &Value) -> Value {
                     steps.push(snap);
                 }
                 continue;
+            }
+            "bulk_store" => {
+                // fill node `node`'s index with `count` filler chunk keys (spread over the whole key space)
+                // through the real handler of the store's own AddLocalRecordAsStored command
+                let i = op["node"].as_u64().unwrap() as usize;
+                let salt = op["salt"].as_u64().unwrap_or(0);
+                for j in 0..op["count"].as_u64().unwrap() {
+                    use sha2::{Digest, Sha256};
+                    let h = Sha256::digest(format!("verif-c09-filler-{salt}-{j}").as_bytes());
+                    let key = RecordKey::new(&xor_name::XorName(h.into()));
+                    let _ = nethooks::handle_local_cmd(
+                        &mut sim.nodes[i].driver,
+                        LocalSwarmCmd::AddLocalRecordAsStored { key, record_type: RecordType::Chunk },
+                    );
+                }
+                settle(&mut sim, &mut step).await;
+            }
+            "cleanup" => {
+                // the periodic irrelevant-record clean-up of node `node`, through the real handler
+                let i = op["node"].as_u64().unwrap() as usize;
+                let before = sim.nodes[i].driver.verif_record_addresses().len();
+                if let Err(e) = nethooks::handle_local_cmd(&mut sim.nodes[i].driver, LocalSwarmCmd::TriggerIrrelevantRecordCleanup) {
+                    step.push(json!({"node": i, "local_cmd_err": format!("{e:?}")}));
+                }
+                settle(&mut sim, &mut step).await;
+                let after = sim.nodes[i].driver.verif_record_addresses().len();
+                eff["before"] = json!(before);
+                eff["after"] = json!(after);
+                eff["threshold"] = json!(ant_networking::verif_hooks::record_store::MAX_RECORDS_COUNT / 10);
             }
             "hold_local" => {
                 let _ = sim.hold_local.insert(op["node"].as_u64().unwrap() as usize);
